@@ -300,7 +300,9 @@ def main():
         data = paranoia_mode(data=data)
 
     if args.file:
-        wallet.export_wallet(file_path=args.file, data=data)
+        # exclusive create: file that appeared since argument validation
+        # must not be overwritten
+        wallet.export_wallet(file_path=args.file, data=data, exclusive=True)
     else:
         wallet.pprint(data=data)
 
